@@ -239,6 +239,12 @@ SPECS_CMDLINE = [
     Spec("ZConfig.cmdline", "OptionBag._normalize_case", "OptionBag_normalize_case", [("string", STR)], STR),
 ]
 
+SPECS_URL = [
+    Spec("ZConfig.url", "urlnormalize", "urlnormalize", [("url", STR)], STR),
+    Spec("ZConfig.url", "urldefrag", "urldefrag", [("url", STR)], Tup(STR, STR), externals=[("urldefrag", Fn([STR], Tup(STR, STR)))]),
+    Spec("ZConfig.url", "urljoin", "urljoin", [("base", STR), ("relurl", STR)], STR, externals=[("urljoin", Fn([STR, STR], STR))]),
+]
+
 # compiled patterns reachable as module globals: (module, global name) -> Lean term of the GENERATED pattern
 REGEX_GLOBALS = {("ZConfig.substitution", "_name_match"): "Gen.nameRx"}
 
@@ -435,7 +441,8 @@ class FnTrans:
         if spec.attrs:
             doc += "; attributes of `self` as parameters: " + ", ".join("`self.%s`" % a for a, _ in spec.attrs)
         if spec.externals:
-            names = {"env": "os.getenv", "float": "what `float()` accepts", "timedelta": "datetime.timedelta"}
+            names = {"env": "os.getenv", "float": "what `float()` accepts", "timedelta": "datetime.timedelta",
+                     "urljoin": "urllib.parse.urljoin", "urldefrag": "urllib.parse.urldefrag"}
             doc += "; " + ", ".join("%s as parameter `%s`" % (names.get(en, en), header[len(spec.attrs) + i].lean)
                                     for i, (en, _) in enumerate(spec.externals))
         if spec.appends:
@@ -1024,6 +1031,11 @@ class FnTrans:
             obj = getattr(self.mod, node.id, None)
             if inspect.ismodule(obj):
                 return obj
+        if isinstance(node, ast.Attribute):          # urllib.parse, urllib.request
+            m = self.module_of(node.value)
+            obj = getattr(m, node.attr, None) if m is not None else None
+            if inspect.ismodule(obj):
+                return obj
         return None
 
     def expr(self, node, env, fx):
@@ -1239,6 +1251,18 @@ class FnTrans:
                 return self.effect(fx, " ".join([ctor.lean] + [vals[n] for n in order]), "t"), rty
         if node.keywords:
             cx.bad(node, "keyword arguments")
+        if isinstance(f, ast.Attribute):
+            m1 = self.module_of(f.value)
+            if m1 is not None:
+                import urllib.parse
+                obj = getattr(m1, f.attr, None)
+                for key, (live, ptys, rty) in {"urljoin": (urllib.parse.urljoin, [STR, STR], STR),
+                                               "urldefrag": (urllib.parse.urldefrag, [STR], Tup(STR, STR))}.items():
+                    if obj is live:
+                        fn = env.get("$" + key)
+                        if fn is None:
+                            cx.bad(node, "urllib's %s in a function whose signature has no `%s` parameter" % (key, key))
+                        return self.apply(node, fn.lean, ptys, rty, args, env, fx), rty
         if any(isinstance(a, ast.Starred) for a in args):
             cx.bad(node, "starred argument")
         # builtins
@@ -1620,6 +1644,20 @@ def gen_code_substitution():
     return head + body + "\nend ZCV.Gen.Code\n"
 
 
+def gen_code_url():
+    unit = _unit_for(SPECS_URL)
+    body, notes = _emit(unit, SPECS_URL, {})
+    trusted = ["* `urllib.parse.urljoin` (= `urllib.request.urljoin`) and `urllib.parse.urldefrag` are PARAMETERS (`urljoin_`, `urldefrag_`);",
+               "  the equality theorems instantiate them with the models `UrlPath.join` / `UrlPath.defrag` of `ZCV/Model/UrlPath.lean`",
+               "* string primitives of `ZCV/Base.lean` / `ZCV/Py.lean` (`lower`, `startsWith`, `Py.slice`)",
+               "* not translated: `urlunsplit` (it edits a list in place: `parts.insert(3, '')`)"]
+    trusted += ["* " + n for n in notes]
+    head = HEADER % {"src": "src/ZConfig/url.py", "imports": "import ZCV.Py",
+                     "what": "`ZConfig/url.py` (`urlnormalize`, `urldefrag`, `urljoin`)", "eqfile": "CodeEqUrl",
+                     "trusted": "\n".join(trusted)}
+    return head + body + "\nend ZCV.Gen.Code\n"
+
+
 def gen_code_cmdline():
     unit = _unit_for(SPECS_CMDLINE)
     body, notes = _emit(unit, SPECS_CMDLINE, {})
@@ -1638,4 +1676,4 @@ if __name__ == "__main__":
     import sys
     which = sys.argv[1:] or ["datatypes", "substitution"]
     for w in which:
-        print({"datatypes": gen_code_datatypes, "substitution": gen_code_substitution, "cmdline": gen_code_cmdline}[w]())
+        print({"datatypes": gen_code_datatypes, "substitution": gen_code_substitution, "cmdline": gen_code_cmdline, "url": gen_code_url}[w]())
